@@ -24,15 +24,18 @@ class StatementSplitter:
         self.consume_ws = False
         self.tokens = []
         self.level = 0
+        self._paren_depth = 0
 
     def _change_splitlevel(self, ttype, value):
         """Get the new split level (increase, decrease or remain equal)"""
 
         # parenthesis increase/decrease a level
         if ttype is T.Punctuation and value == '(':
-            return 1
+            self._paren_depth += 1
+            return 0
         elif ttype is T.Punctuation and value == ')':
-            return -1
+            self._paren_depth = max(0, self._paren_depth - 1)
+            return 0
         elif ttype not in T.Keyword:  # if normal token return
             return 0
 
@@ -106,7 +109,8 @@ class StatementSplitter:
             # When implementing a language toggle, it's not only to add
             # keywords it's also to change some rules, like this splitting
             # rule.
-            if (self.level <= 0 and ttype is T.Punctuation and value == ';') \
+            if (self.level <= 0 and self._paren_depth == 0
+                    and ttype is T.Punctuation and value == ';') \
                     or (ttype is T.Keyword and value.split()[0] == 'GO'):
                 self.consume_ws = True
 
